@@ -39,7 +39,30 @@ impl Heap {
     pub uninterp spec fn cells(&self) -> Seq<HeapCellValue>;
     #[verifier::external_body] pub fn at(&self, i: usize) -> (r: HeapCellValue) ensures i < self.cells().len(), r == self.cells()[i as int] { unimplemented!() }
 }
-pub struct MachineState { pub heap: Heap }
+#[derive(Clone, Copy)] pub enum FirstOrNext { First, Next }
+pub struct MachineState { pub heap: Heap, pub p: usize, pub fail: bool, pub oip: u32, pub iip: u32, pub dynamic_mode: FirstOrNext }
+impl MachineState {
+    pub uninterp spec fn arg_cell(&self, arg: usize) -> HeapCellValue;
+    // store(deref(registers[arg]))
+    #[verifier::external_body] pub fn argument(&self, arg: usize) -> (r: HeapCellValue) ensures r == self.arg_cell(arg) { unimplemented!() }
+}
+#[verifier::external_body] pub struct Code { _p: usize }
+pub struct Machine { pub code: Code, pub machine_st: MachineState }
+impl Machine {
+    pub uninterp spec fn lines(&self) -> Seq<IndexingLine>;
+    // `self.code[self.machine_st.p].to_indexing_line_mut().unwrap()`: the indexing lines of the instruction at p
+    #[verifier::external_body] pub fn indexing_lines_at_p(&self) -> (r: &Vec<IndexingLine>) ensures r@ == self.lines() { unimplemented!() }
+}
+// the nested test of execute_switch_on_term: is the dynamic clause at code position p alive for this call?
+pub uninterp spec fn clause_alive(m: Machine, p: int) -> bool;
+#[verifier::external_body]
+pub fn dynamic_external_of_clause_is_valid(machine: &mut Machine, p: usize) -> (r: bool)
+    ensures r == clause_alive(*old(machine), p as int), final(machine).lines() == old(machine).lines(),
+            final(machine).machine_st.p == old(machine).machine_st.p, final(machine).machine_st.fail == old(machine).machine_st.fail,
+            final(machine).machine_st.oip == old(machine).machine_st.oip, final(machine).machine_st.iip == old(machine).machine_st.iip,
+            final(machine).machine_st.heap == old(machine).machine_st.heap { unimplemented!() }
+pub struct VecDeque<T> { pub v: Vec<T> }
+pub enum IndexedChoiceInstruction { Try(usize), Retry(usize), Trust(usize), DefaultRetry(usize), DefaultTrust(usize) }
 pub struct FxBuildHasher;
 #[verifier::external_body]
 #[verifier::reject_recursive_types(K)]
